@@ -538,3 +538,37 @@ func (f faultyFactoryProfile) GetClaims() psatoken.IClaims {
 	}
 	return nil
 }
+
+// ---- an extension whose own claim is kept as raw CBOR ----
+
+const RawP2Name = "http://example.com/verif/raw-claim-on-p2"
+
+type RawP2Claims struct {
+	psatoken.P2Claims
+	Blob cbor.RawMessage `cbor:"-75500,keyasint,omitempty" json:"blob,omitempty"`
+	Tail *[]byte         `cbor:"-75501,keyasint,omitempty" json:"tail,omitempty"`
+}
+
+func (o RawP2Claims) MarshalCBOR() ([]byte, error) { return encoding.SerializeStructToCBOR(hem, &o) }
+func (o *RawP2Claims) UnmarshalCBOR(data []byte) error {
+	return encoding.PopulateStructFromCBOR(hdm, data, o)
+}
+func (o RawP2Claims) MarshalJSON() ([]byte, error) { return encoding.SerializeStructToJSON(&o) }
+func (o *RawP2Claims) UnmarshalJSON(data []byte) error {
+	return encoding.PopulateStructFromJSON(data, o)
+}
+
+type rawP2Profile struct{}
+
+func (rawP2Profile) GetName() string { return RawP2Name }
+func (rawP2Profile) GetClaims() psatoken.IClaims {
+	p := eat.Profile{}
+	if err := p.Set(RawP2Name); err != nil {
+		panic(err)
+	}
+	return &RawP2Claims{P2Claims: psatoken.P2Claims{
+		Profile:          &p,
+		SwComponents:     &psatoken.SwComponents[*psatoken.SwComponent]{},
+		CanonicalProfile: RawP2Name,
+	}}
+}
